@@ -1204,3 +1204,35 @@ M("k6-quiet-insert-first", "C12", "quiet", "src/compile.rs",
   """                let n = resolve_const_expr_unsigned(&const_def.value, &consts_unsigned);
                 consts_unsigned.insert(const_name.clone(), n);
                 const_sizes.insert(const_name.clone(), n as usize);""", "behaviour-preserving: order of the two insertions swapped")
+
+# ---------------------------------------------------------------- sweep: C04 O8 / C15 U3b
+M("o8-second-operand-not-followed", "C04", "fire O8", "src/circuit.rs",
+  """                if y >= shift && !used_gates[y - shift] {
+                    output_gate_stack.push(y);
+                }""",
+  """                if y >= shift && !used_gates[y - shift] && x < shift {
+                    output_gate_stack.push(y);
+                }""", "second operand followed only when the first is an input")
+M("o8-panic-field-not-root", "C04", "fire O8", "src/circuit.rs",
+  """        output_gate_stack.extend(self.panic_gates.result.end_line.iter());
+        output_gate_stack.extend(self.panic_gates.result.end_column.iter());""",
+  """        output_gate_stack.extend(self.panic_gates.result.end_line.iter());""", "end_column wires of the panic record are not roots")
+M("u3b-keep-all-and-gates", "C15", "fire U3b", "src/circuit.rs",
+  """        for (w, &used) in used_gates.iter().enumerate() {
+            if used {
+                without_unused_gates.push(self.gates[w]);
+            }
+        }""",
+  """        for (w, &used) in used_gates.iter().enumerate() {
+            if used {
+                without_unused_gates.push(self.gates[w]);
+            } else if unused_gates == 0 {
+                without_unused_gates.push(self.gates[w]);
+            }
+        }""", "a second copy path that does not look at the mark (dead code today, live after any refactoring of the counter)")
+M("u3b-mark-neighbours", "C15", "fire U3b", "src/circuit.rs",
+  """                used_gates[shifted_index] = true;
+                let (x, y) = match self.gates[shifted_index] {""",
+  """                used_gates[shifted_index] = true;
+                used_gates[0] = true;
+                let (x, y) = match self.gates[shifted_index] {""", "the first gate is always kept")
